@@ -624,12 +624,41 @@ def _string_pop(eng, t, a, fr, dt):
     return some(Int('char', s.c[-1]))
 
 
+def _op_trait(eng, op, a):
+    """Integer operator traits called as functions (operands behind references: `&a % b`, `a + &b`); the
+    std impls inherit the caller's overflow checks, which are on in the profile the engine models."""
+    x, y = deref_all(a[0]), deref_all(a[1])
+    if type(x) is not Int or type(y) is not Int:
+        raise Unmodelled('%s for %r' % (op, x))
+    if op in ('Add', 'Sub', 'Mul'):
+        r = binop(op + 'WithOverflow', x, y)
+        if eng.ctx.branch(r.f[1]):
+            raise Panic('attempt to %s with overflow' % {'Add': 'add', 'Sub': 'subtract', 'Mul': 'multiply'}[op])
+        return r.f[0]
+    if op in ('Div', 'Rem'):
+        if eng.ctx.branch(int_eq(y, 0)):
+            raise Panic('attempt to divide by zero' if op == 'Div' else
+                        'attempt to calculate the remainder with a divisor of zero')
+        if x.ty in SIGNED:
+            raise Unmodelled('signed %s through the operator trait' % op)
+    return binop(op, x, y)
+
+
 @reg('Add::add')
 def _add(eng, t, a, fr, dt):
     x = deref_all(a[0])
     if type(x) is Str or type(x) is SChoice:
         return Str(as_str(eng, x).c + as_str(eng, a[1]).c)
-    raise Unmodelled('Add for %r' % (x,))
+    return _op_trait(eng, 'Add', a)
+
+
+@reg('Sub::sub', 'Mul::mul', 'Div::div', 'Rem::rem', 'BitAnd::bitand', 'BitOr::bitor', 'BitXor::bitxor')
+def _arith_trait(eng, t, a, fr, dt):
+    op = t.key.split('::')[0]
+    x = deref_all(a[0])
+    if op.startswith('Bit') and (type(x) is bool or isinstance(x, z3.BoolRef)):
+        return binop(op, x, deref_all(a[1]))
+    return _op_trait(eng, op, a)
 
 
 @reg('String::len', 'str::len')
